@@ -190,6 +190,20 @@ pub fn adversarial(base: &Doc) -> Vec<Doc> {
     }
     let mut ps = vec![];
     paths(base, &mut vec![], &mut ps);
+    // every numeric leaf non-finite at once (several faults a Value target cannot hold)
+    {
+        let mut d = base.clone();
+        let mut n = 0;
+        for p in &ps {
+            if matches!(base.resolve(p), Some(Doc::Int(_) | Doc::Neg(_) | Doc::Float(_))) {
+                *d.resolve_mut(p).unwrap() = Doc::Float(if n % 2 == 0 { f64::NAN } else { f64::INFINITY });
+                n += 1;
+            }
+        }
+        if n > 1 {
+            out.push(d);
+        }
+    }
     for p in ps {
         let at = base.resolve(&p).unwrap();
         match at {
@@ -324,12 +338,35 @@ impl<'a> Engine<'a> {
             }
         }
 
-        'cases: for (doc, plain) in &cases {
-            states += 1;
+        // the second value source also presents every canonical payload with the members of all
+        // objects in reverse order (an order serde_json never produces)
+        let mut presentations: Vec<(Doc, bool, Src)> = vec![];
+        for (doc, plain) in cases {
             for &src in cfg.sources {
                 if !plain && src == Src::Json {
                     continue;
                 }
+                if src == Src::Ov && plain {
+                    let r = doc.reversed();
+                    if r != doc {
+                        presentations.push((r, true, Src::Ov));
+                        // quick tier, decision-tree sweeps: the second source presents the reversed
+                        // order only (its canonical-order presentation walks the same deserr paths as
+                        // serde_json's; the keep-going sweeps and the thorough tier run all three)
+                        if self.tier == Tier::Quick && cfg.scripts == Scripts::Tree {
+                            continue;
+                        }
+                    }
+                }
+                presentations.push((doc.clone(), plain, src));
+            }
+        }
+        'cases: for (doc, plain, src) in &presentations {
+            if *src == Src::Json || !*plain {
+                states += 1;
+            }
+            {
+                let src = *src;
                 let case = Case { cat: self.cat, root: ri, ty: &root.ty, src, payload: doc, plain: *plain, tag_exempt: &tag_exempt };
                 let run = |s: &Script| execute(entry, src, doc, s);
                 let keep = run(&Script::keep_going());
@@ -369,7 +406,11 @@ impl<'a> Engine<'a> {
                     }
                     Scripts::Tree => {
                         let mut first_err: Option<(Script, Outcome, String)> = None;
-                        let st = explore_scripts(&run, b.max_leaves, b.d, &mut |s, o| {
+                        // the reversed-order presentation gets complete trees only when they are small
+                        // (the canonical-order presentation of the same payload gets the full bound)
+                        let is_reversed = src == Src::Ov && *plain && *doc != doc.canonical();
+                        let leaves = if is_reversed { b.max_leaves.min(64) } else { b.max_leaves };
+                        let st = explore_scripts(&run, leaves, b.d, &mut |s, o| {
                             if first_err.is_none() {
                                 if let Err(m) = (cfg.check)(&case, s, o, &keep) {
                                     first_err = Some((s.clone(), o.clone(), m));
